@@ -1181,6 +1181,16 @@ def main():
     co.append('(* File.h: documented format table: code, class id (0 = none) *)')
     co.append('Definition format_table : list (Z * Z) := [\n  %s].\n' % ';\n  '.join(
         '(%d, %d)' % (code, world.classes[h].idx if h in world.classes else 0) for nm, code, h in fmt))
+    # the format's own assignment, pinned in /verif (not taken from the tree under test)
+    try:
+        pinned = json.load(open(os.path.join(os.path.dirname(os.path.abspath(__file__)), 'format_codes.json')))['codes']
+    except (OSError, ValueError, KeyError):
+        pinned = []
+        world.warnings.append('translator/format_codes.json missing or unreadable')
+    co.append('(* translator/format_codes.json: the pinned format table: code, class id (0 = no decoder / class gone) *)')
+    co.append('Definition pinned_format : list (Z * Z) := [\n  %s].\n' % ';\n  '.join(
+        '(%d, %d)' % (code, world.classes[h].idx if h in world.classes else 0) for nm, code, h in pinned))
+    meta['pinned_format'] = pinned
     cre = []
     for n in names:
         cls = world.classes[n]
